@@ -34,7 +34,7 @@ def make_data(rng, kind, N):
         y = np.cumsum(x) * 0.1
     # overall amplitude: unit scale mostly, sometimes very small / large records (metres, strain, counts)
     amp = rng.choice([1.0, 1.0, 1.0, 1e-6, 1e-9, 1e5])
-    ampy = amp * rng.choice([1.0, 1.0, 20.0])
+    ampy = amp * rng.choice([1.0, 1.0, 1.0, 20.0, 1e-18])     # second channel sometimes in tiny units (transfer magnitude far below 1)
     return x * amp, y * ampy
 
 
@@ -119,6 +119,11 @@ def make_result(rng, cross=None, which=None, kind=None, backend="numba"):
         if which == "single":
             L = rng.choice([64, 100, N, N // 3])
             f0 = rng.uniform(2, L / 2 - 2) * fs / L
+            edge = rng.random()
+            if edge < 0.08:
+                f0 = 0.0              # the DC bin
+            elif edge < 0.16:
+                f0 = fs / 2           # the Nyquist bin
             if rng.random() < 0.5:
                 r = an.compute_single_bin(f0, L=L)
             else:
